@@ -513,7 +513,7 @@ pub fn gen_c04(seed: u64, thorough: bool, _only: Option<u64>, out: &mut Out) {
   // thresholds differing in one bit, 0 and extremes, same strings
   let m0 = r.bytes(6);
   let e0 = r.bytes(2);
-  families.push([1u32, 2, 3, 4, 5, 8, 9, 16, 17, 64, 65, 256, 257].iter().map(|&t| (m0.clone(), e0.clone(), t)).collect());
+  families.push([0u32, 1, 2, 3, 4, 5, 8, 9, 16, 17, 64, 65, 256, 257].iter().map(|&t| (m0.clone(), e0.clone(), t)).collect());
   // prefixes of one another, empty components, zero bytes
   let base = r.bytes(5);
   let mut fam = vec![];
@@ -587,6 +587,33 @@ pub fn gen_c04(seed: u64, thorough: bool, _only: Option<u64>, out: &mut Out) {
     let sel: Vec<usize> = (0..n).rev().collect();
     let (obs, _, _) = server_side(&g.e, &g.wire, &sel);
     out.case(scn_case(&g, &sel), format!("wire={} {}", g.wire.iter().map(|b| hex(b)).collect::<Vec<_>>().join(","), obs), v);
+    // the WASM entry point: same key / tag, and its share combines with the reports' shares
+    let mg = MessageGenerator::new(SingleMeasurement::new(&m), t, &e);
+    if let Ok(w) = mg.share_with_local_randomness() {
+      let wb = w.share.to_bytes();
+      let wx = share_x(&wb).unwrap_or_default();
+      let mut v2 = Ok(());
+      if w.tag.to_vec() != tag || w.key.to_vec() != key {
+        v2 = Err("share_with_local_randomness disagrees with Message::generate on tag or key".to_string());
+      }
+      if static_part(&wb) != static_part(&parts[0].1) {
+        v2 = Err("the share of share_with_local_randomness is not a share of the same sharing as the reports'".to_string());
+      }
+      let mut mix: Vec<Vec<u8>> = vec![wb.clone()];
+      for p in parts.iter().take(t as usize - 1) {
+        mix.push(p.1.clone());
+      }
+      let shares: Option<Vec<Share>> = mix.iter().map(|b| Share::from_bytes(b)).collect();
+      let ok = shares.map_or(false, |sh| share_recover(&sh).map_or(false, |c| c.get_message() == derive3(&g.rnd)[0]));
+      if !ok {
+        v2 = Err("a WASM-path share and report shares of the same triple do not combine".to_string());
+      }
+      out.case(
+        format!("wasm.mat {} {} {} {}", hex(&m), hex(&e), t, hex(&wx)),
+        format!("key={} share={} tag={}", hex(&w.key), hex(&wb), hex(&w.tag)),
+        v2,
+      );
+    }
   }
 }
 
@@ -667,6 +694,25 @@ pub fn gen_c05(seed: u64, thorough: bool, only: Option<u64>, out: &mut Out) {
         }
       }
       emit(&col, Some(m0), format!("mixture variant {} (first share of a t={} sharing)", variant, t0), out);
+      // the same collection through sta_rs::share_recover
+      let obs = match col.iter().map(|b| Share::from_bytes(b)).collect::<Option<Vec<Share>>>() {
+        Some(sh) => match guarded(|| match share_recover(&sh) {
+          Ok(c) => {
+            let mm = c.get_message();
+            match c.clone().share() {
+              Ok(s2) => format!("ok {} {}", hex(&mm), static_part(&s2.to_bytes())),
+              Err(_) => format!("ok {} reshare-err", hex(&mm)),
+            }
+          }
+          Err(_) => "err".to_string(),
+        }) {
+          Some(o) => o,
+          None => "panic".into(),
+        },
+        None => "err".into(),
+      };
+      let v = if obs == "err" || obs.starts_with(&format!("ok {} ", hex(m0))) { Ok(()) } else { Err(format!("share_recover on mixture variant {} returned a message other than the first share's", variant)) };
+      out.case(format!("star.shrec {}", col.iter().map(|b| hex(b)).collect::<Vec<_>>().join(" ")), obs, v);
     }
     // single-field alterations of the first share and of a later share
     let base: Vec<Vec<u8>> = s0.clone();
